@@ -8,6 +8,10 @@ use refmodel::parse::*;
 use refmodel::vocab::Func;
 use serde_json::json;
 
+/// when set (env VX_DUMP_OUTCOMES), every tree outcome is written there: used to locate a difference
+/// between the two arithmetic profiles (C06)
+pub static DUMP: std::sync::OnceLock<std::sync::Mutex<std::io::BufWriter<std::fs::File>>> = std::sync::OnceLock::new();
+
 pub fn nd(e: Expr) -> Node {
     Node { e, span: (0, 0) }
 }
@@ -240,6 +244,16 @@ pub fn run_tree<D: Dom>(cfg: &TreeCfg<D>, tree: &Node, at: &Option<D::V>, st: &m
     st.outcome_digest = st
         .outcome_digest
         .wrapping_add(crate::etok::digest_of::<D>(&text, &at_v, &run.out));
+    if let Some(w) = DUMP.get() {
+        use std::io::Write;
+        let o = match &run.out {
+            Out::Ok(v) => format!("ok:{}", D::enc(v)),
+            Out::Err => "err".to_string(),
+            Out::Panic(_) => "panic".to_string(),
+            Out::Budget(_) => "budget".to_string(),
+        };
+        let _ = writeln!(w.lock().unwrap(), "{}\t{}\t{}\t{}", D::EV.name(), text, D::enc(&at_v), o);
+    }
     let verdict: Option<(Kind, String, String)> = match &run.out {
         Out::Panic(m) => {
             st.panics += 1;
